@@ -10,4 +10,5 @@ import (
 // byte string is the stream the property draws from (rt.FuzzProp), so generators, oracle and failure
 // signatures are exactly those of the named test.
 
-func FuzzPropHistories(f *testing.F) { rt.FuzzProp(f, rt.Capture(TestHistories)) }
+func FuzzPropHistories(f *testing.F)   { rt.FuzzProp(f, rt.Capture(TestHistories)) }
+func FuzzPropManyOrigins(f *testing.F) { rt.FuzzProp(f, rt.Capture(TestManyOrigins)) }
